@@ -104,7 +104,7 @@ def run(ctx):
         if len(sreads) == 1:
             rb, rt = sreads[0]
             is_cnt = lambda t: M.strip(t)[0] == "call" and M.strip(t)[3] == rb
-            eof_e = bool_edges(os_start, T, lambda c: c[0] == "bin" and c[1] == "Eq" and const_of(c[3]) == 0 and is_cnt(c[2]), True)
+            eof_e = int_eq_edges(os_start, T, is_cnt, 0)
             oks = [(bb, si) for (bb, si, v, r) in result_variants(os_start, M.Explore(os_start)) if v == "Ok"]
             ctx.floor("R07.1", "Ok returns of os_start", len(oks), 1)
             for bb, si in oks:
@@ -214,7 +214,7 @@ def run(ctx):
                 ctx.ob("R07.2", "codec-tables-agree", enc is not None and dec is not None and enc == dec and sorted(enc) == [0, 1, 2, 3], wf.loc(wb),
                        "child encodes byte->shift %s, parent decodes %s (must be equal, 4 bytes)" % (enc, dec))
                 n = len(arr[2]) if arr[0] == "agg" else 4
-                len_e = bool_edges(os_start, T, lambda c: c[0] == "bin" and c[1] == "Eq" and const_of(c[3]) == n and is_cnt(c[2]), True)
+                len_e = int_eq_edges(os_start, T, is_cnt, n)
                 for bb, t in os_start.calls_to(lambda f: M.callee_str(f) == "std::io::Error::from_raw_os_error"):
                     ctx.ob("R07.2", "decode-under-len==%d" % n, dominated_by_edges(os_start, bb, len_e), os_start.loc(bb), "the code is decoded only when exactly %d bytes (what the child writes) were read" % n)
                 # what is encoded is do_exec's error
